@@ -3,9 +3,12 @@ GreensFunctionCache.put / get over a file-system model.
 
 File states: absent / partial / complete(value).  np.savez(path) makes the
 file partial, then complete; a crash (SystemExit-like) may occur before any
-file-system step; os.replace is atomic; np.load of a partial file raises one
-of BadZipFile, EOFError, ValueError, OSError (symbolic choice); of a complete
-file returns the stored arrays."""
+file-system step; os.replace is atomic; a partial (truncated or damaged) file
+fails with one of BadZipFile, EOFError, ValueError, OSError (symbolic choice)
+EITHER when np.load opens it (truncation: the zip directory at the end is
+missing) OR only when a member is read (np.load of an .npz is lazy: a damaged
+body with an intact directory opens fine and fails on the CRC / header of the
+member); a complete file returns the stored arrays."""
 import logging
 import zipfile
 from typing import Optional
@@ -73,6 +76,45 @@ class _Npz(dict):
         pass
 
 
+def _fail(k):
+    if k == 0:
+        raise zipfile.BadZipFile("unreadable")
+    if k == 1:
+        raise EOFError("unreadable")
+    if k == 2:
+        raise ValueError("unreadable")
+    raise OSError("unreadable")
+
+
+class _DamagedNpz:
+    """opens, lists its members, fails when one is read"""
+
+    def __init__(self, kind):
+        self.kind = kind
+        self.files = ["X", "Y", "Z", "conc", "flx"]
+
+    def __enter__(self):
+        return self
+
+    def __exit__(self, *a):
+        return False
+
+    def close(self):
+        pass
+
+    def keys(self):
+        return list(self.files)
+
+    def __contains__(self, k):
+        return k in self.files
+
+    def __getitem__(self, k):
+        _fail(self.kind)
+
+    def get(self, k, default=None):
+        _fail(self.kind)
+
+
 def _name(path):
     n = str(path)
     return n if n.endswith(".npz") else n + ".npz"
@@ -93,13 +135,9 @@ class FakeNP:
         state, val = _FS.files[n]
         if state == "partial":
             k = _FS.fail_kind
-            if k == 0:
-                raise zipfile.BadZipFile("truncated")
-            if k == 1:
-                raise EOFError("truncated")
-            if k == 2:
-                raise ValueError("truncated")
-            raise OSError("truncated")
+            if k >= 4:
+                return _DamagedNpz(k - 4)
+            _fail(k)
         return _Npz(val)
 
     def __getattr__(self, n):
@@ -172,7 +210,7 @@ def _crash(crash_at, fail_kind, old_present, old_partial, leftover_partial_tmp):
 
 def check_crash_no_old_entry(crash_at: int, fail_kind: int, leftover_partial_tmp: bool) -> bool:
     """
-    pre: 0 <= crash_at <= 8 and 0 <= fail_kind <= 3
+    pre: 0 <= crash_at <= 8 and 0 <= fail_kind <= 7
     post: _
     """
     return _crash(crash_at, fail_kind, False, False, leftover_partial_tmp)
@@ -180,7 +218,7 @@ def check_crash_no_old_entry(crash_at: int, fail_kind: int, leftover_partial_tmp
 
 def check_crash_old_complete(crash_at: int, fail_kind: int, leftover_partial_tmp: bool) -> bool:
     """
-    pre: 0 <= crash_at <= 8 and 0 <= fail_kind <= 3
+    pre: 0 <= crash_at <= 8 and 0 <= fail_kind <= 7
     post: _
     """
     return _crash(crash_at, fail_kind, True, False, leftover_partial_tmp)
@@ -188,7 +226,7 @@ def check_crash_old_complete(crash_at: int, fail_kind: int, leftover_partial_tmp
 
 def check_crash_old_truncated(crash_at: int, fail_kind: int, leftover_partial_tmp: bool) -> bool:
     """
-    pre: 0 <= crash_at <= 8 and 0 <= fail_kind <= 3
+    pre: 0 <= crash_at <= 8 and 0 <= fail_kind <= 7
     post: _
     """
     return _crash(crash_at, fail_kind, True, True, leftover_partial_tmp)
@@ -196,7 +234,7 @@ def check_crash_old_truncated(crash_at: int, fail_kind: int, leftover_partial_tm
 
 def twin_crash(crash_at: int, fail_kind: int, leftover_partial_tmp: bool) -> bool:
     """
-    pre: 0 <= crash_at <= 8 and 0 <= fail_kind <= 3
+    pre: 0 <= crash_at <= 8 and 0 <= fail_kind <= 7
     post: _
     """
     _crash(crash_at, fail_kind, True, True, leftover_partial_tmp)
